@@ -7,6 +7,7 @@ import (
 	"os"
 	"os/exec"
 	"path/filepath"
+	"sort"
 	"strings"
 	"sync"
 	"time"
@@ -22,10 +23,10 @@ type SolveOpts struct {
 }
 
 type SolverStats struct {
-	mu       sync.Mutex
-	ByBack   map[string]int
-	TimeS    float64
-	Queries  int
+	mu      sync.Mutex
+	ByBack  map[string]int
+	TimeS   float64
+	Queries int
 }
 
 func (s *SolverStats) add(back string, d time.Duration) {
@@ -58,8 +59,43 @@ func solverArgs(name string, file string, ms int, seed int) []string {
 	return base
 }
 
-func obligationQuery(o *Obligation) string {
-	return and(o.Guard, not(o.Goal))
+var skCounter int
+var skMu sync.Mutex
+
+// obligationQuery returns the declarations and the assertion of the negated obligation (goal skolemized),
+// preceded by ground instances of the unit's quantified hypotheses at the goal's index terms.
+func obligationQuery(o *Obligation) (string, string) {
+	skMu.Lock()
+	g, decls := skolemizeGoal(o.Goal, &skCounter)
+	skMu.Unlock()
+	q := and(o.Guard, not(g))
+	var extra []string
+	if o.Gen != nil {
+		tm := map[string]bool{}
+		selectIndexTerms(q, tm)
+		var terms []string
+		for t := range tm {
+			if !strings.Contains(t, "|q!") && len(t) < 200 && o.Gen.S.isIntTerm(t) {
+				terms = append(terms, t)
+			}
+		}
+		sort.Strings(terms)
+		if len(terms) > 8 {
+			terms = terms[:8]
+		}
+		if len(terms) > 0 {
+			budget := 160
+			for _, a := range o.Gen.S.asserts {
+				if !strings.Contains(a, "(forall ((|q!") {
+					continue
+				}
+				for _, inst := range groundInstances(a, terms, &budget) {
+					extra = append(extra, "(assert "+inst+")")
+				}
+			}
+		}
+	}
+	return strings.Join(append(decls, extra...), "\n"), q
 }
 
 // SolveGen discharges the obligations of one generated unit.
@@ -67,6 +103,7 @@ func SolveGen(g *Gen, opts SolveOpts, stats *SolverStats) {
 	if len(g.Obls) == 0 {
 		return
 	}
+	g.emitAxioms()
 	prefix := g.S.text()
 	safe := strings.NewReplacer("/", "_", "(", "", ")", "", "*", "P", "$", "_", ":", "_", " ", "_").Replace(g.FnName())
 	dir := filepath.Join(opts.OutDir, safe)
@@ -82,7 +119,8 @@ func SolveGen(g *Gen, opts SolveOpts, stats *SolverStats) {
 	}
 	fmt.Fprintf(&b, "(push)\n(assert %s)\n(check-sat)\n(pop)\n", or(rets...))
 	for _, o := range g.Obls {
-		fmt.Fprintf(&b, "(push)\n(assert %s)\n(check-sat)\n(pop)\n", obligationQuery(o))
+		d, q := obligationQuery(o)
+		fmt.Fprintf(&b, "(push)\n%s\n(assert %s)\n(check-sat)\n(pop)\n", d, q)
 	}
 	f1 := filepath.Join(dir, "all.smt2")
 	os.WriteFile(f1, []byte(b.String()), 0o644)
@@ -142,7 +180,8 @@ func SolveGen(g *Gen, opts SolveOpts, stats *SolverStats) {
 }
 
 func raceOne(o *Obligation, prefix, file string, opts SolveOpts, stats *SolverStats) {
-	q := prefix + fmt.Sprintf("(assert %s)\n(check-sat)\n(get-model)\n", obligationQuery(o))
+	d, qa := obligationQuery(o)
+	q := prefix + fmt.Sprintf("%s\n(assert %s)\n(check-sat)\n(get-model)\n", d, qa)
 	os.WriteFile(file, []byte(q), 0o644)
 	qc := "(set-option :produce-models true)\n(set-logic ALL)\n" + q
 	fileC := strings.TrimSuffix(file, ".smt2") + ".cvc5.smt2"
@@ -153,7 +192,7 @@ func raceOne(o *Obligation, prefix, file string, opts SolveOpts, stats *SolverSt
 	}
 	type res struct {
 		solver, ans, out string
-		d           time.Duration
+		d                time.Duration
 	}
 	ctx, cancel := context.WithCancel(context.Background())
 	defer cancel()
